@@ -39,8 +39,10 @@ Proof.
   intros Hw. unfold str_doc, estr. rewrite is0_ectx. destruct (depth_is0 ctx).
   - destruct wrapc as [w|]; [now apply placeholder_DT|].
     apply (placeholder_DT (cls_of (if bytes then n_bytes else n_str))). apply wf_cls_of.
-  - pose proof (DT_str (mkStrp s bytes (c_strategy ctx) (c_indent ctx)
-                          (option_map (fun c => (cn_tok c, cn_name c)) wrapc) path)) as H.
+  - assert (Hok : wrap_ok (mkStrp s bytes (c_strategy ctx) (c_indent ctx)
+                          (option_map (fun c => (cn_tok c, cn_name c)) wrapc) path)).
+    { unfold wrap_ok. cbn [sp_wrap]. destruct wrapc as [w|]; cbn [option_map]; [exact Hw|exact I]. }
+    pose proof (DT_str _ Hok) as H.
     unfold strtoks in H. cbn [sp_wrap sp_bytes sp_s] in H.
     destruct wrapc as [w|]; cbn [option_map] in H; exact H.
 Qed.
